@@ -30,6 +30,25 @@ def _ansi_source():
     raise TranslateError("ANSI_ESCAPE_PATTERN not found")
 
 
+INCOMPLETE_PINNED = rb"\x1B(\s)?((\](\d[^\x07\n]*)?)|(\[[^@-~\n]*))?\Z"
+
+
+def _incomplete_source():
+    """ANSI_ESCAPE_INCOMPLETE_PATTERN text/flags and ANSI_ESCAPE_INCOMPLETE_MAX_LENGTH (the hold-back of a sequence cut by a read)"""
+    rel = "scrapli/channel/base_channel.py"
+    pat = flags = mx = None
+    for node in ast.parse((REPO / rel).read_text()).body:
+        if isinstance(node, ast.Assign):
+            name = getattr(node.targets[0], "id", "")
+            if name == "ANSI_ESCAPE_INCOMPLETE_PATTERN":
+                kw = {k.arg: k.value for k in node.value.keywords}
+                pat = ast.literal_eval(kw["pattern"] if "pattern" in kw else node.value.args[0])
+                flags = ast.unparse(kw["flags"]) if kw.get("flags") is not None else ""
+            elif name == "ANSI_ESCAPE_INCOMPLETE_MAX_LENGTH":
+                mx = ast.literal_eval(node.value)
+    return pat, flags, mx
+
+
 def lean_bytes(b):
     return "[" + ", ".join(str(x) for x in b) + "]"
 
@@ -49,5 +68,10 @@ def generate():
     body += f"/-- the ANSI_ESCAPE_PATTERN source text and flags equal the ones ScrapliModel/Channel/Ansi.lean mirrors -/\n"
     body += f"def ansiPatternIsPinned : Bool := {'true' if ansi_ok else 'false'}\n"
     body += f"def ansiPatternSource : List UInt8 := {lean_bytes(pat)}\n"
+    ipat, iflags, imax = _incomplete_source()
+    body += ("/-- the hold-back of a sequence cut by a read boundary (`_strip_ansi_read`): the incomplete-sequence pattern text equals the one\n"
+             "    `incompleteAfter` mirrors, no flags; `none` = the source has no such pattern (code before the fix) -/\n")
+    body += f"def incompletePatternIsPinned : Bool := {'true' if (ipat == INCOMPLETE_PINNED and not iflags) else 'false'}\n"
+    body += f"def heldMaxSource : Option Nat := {'none' if imax is None else 'some ' + str(int(imax))}\n"
     body += "end Scrapli.Gen.Chan\n"
     return [("ScrapliModel/Gen/ChanConsts.lean", body)]
